@@ -161,6 +161,14 @@ def add_pkey_move(rng, case):
     if not cand:
         return case
     t0 = rng.choice(cand)
+    # in a third of the moves the new key is composite ('alt', 'alt2'); the objects that leave the
+    # source before the move never got their 'alt2': with a client trashbin (retention 5 days) they
+    # are trashed objects owning only a part of the new key when it moves
+    comp = random.Random(case["cseed"] ^ 0x3c3).random() < 0.35
+    idcol = "c_" + t0["pkey"][0]
+    allpolls = list(case["h1"]) + list(case["h2"])
+    ids_of = lambda tb: {r[idcol] for r in tb["src"].get("q_" + t0["name"], [])}
+    survivors = ids_of(allpolls[-1]) | (ids_of(allpolls[-2]) if len(case["h2"]) > 1 else set())
 
     def with_alt(cfg, moved):
         c = copy.deepcopy(cfg)
@@ -168,14 +176,19 @@ def add_pkey_move(rng, case):
             if t["name"] == t0["name"]:
                 t["attrs"].append("alt")
                 t["mapping"]["alt"] = ("plain", "c_alt")
+                if comp:
+                    t["attrs"].append("alt2")
+                    t["mapping"]["alt2"] = ("plain", "c_alt2")
                 if moved:
-                    t["pkey"] = ["alt"]
+                    t["pkey"] = ["alt", "alt2"] if comp else ["alt"]
         return c
 
     def alt_rows(tables):
         tb = copy.deepcopy(tables)
         for r in tb["src"].get("q_" + t0["name"], []):
-            r["c_alt"] = r["c_" + t0["pkey"][0]] + 100
+            r["c_alt"] = r[idcol] + 100
+            if comp:
+                r["c_alt2"] = (r[idcol] + 200) if r[idcol] in survivors else None
         return tb
     cfgC = with_alt(case["cfgB"], True)
     case["cfgA"], case["cfgB"] = with_alt(case["cfgA"], False), with_alt(case["cfgB"], False)
@@ -185,6 +198,10 @@ def add_pkey_move(rng, case):
     case["h2"], h3 = h2[:cut], (h2[cut:] or [h2[-1]])
     for cdm in (case["cdmA"], case["cdmB"]):
         cdm["L" + t0["name"]]["attrsmapping"]["l_alt"] = "alt"
+        if comp:
+            cdm["L" + t0["name"]]["attrsmapping"]["l_alt2"] = "alt2"
+    if comp:
+        case["retention"] = 5
     if rng.random() < 0.6:
         # directed: the second phase maps one more attribute of that very type, so the client
         # generates purely local 'modified' events for its objects; exactly those handler calls
@@ -198,8 +215,8 @@ def add_pkey_move(rng, case):
             del am_a[la]
             case["fail_local"] = ["on_L" + t0["name"] + "_modified", la]
     case["phase3"] = {"cfg": cfgC, "cdm": copy.deepcopy(case["cdmB"]), "polls": h3}
-    t0["attrs"] = t0["attrs"] + ["alt"]          # the universe knows the attribute too (Gallina rendering)
-    case["edits"] = list(case["edits"]) + [("move_pkey", t0["name"])]
+    t0["attrs"] = t0["attrs"] + ["alt"] + (["alt2"] if comp else [])   # the universe knows the attributes too (Gallina rendering)
+    case["edits"] = list(case["edits"]) + [("move_pkey_composite" if comp else "move_pkey", t0["name"])]
     case["p_fail"] = 0.0 if case.get("fail_local") else rng.choice([0.0, 0.3, 0.5])
     return case
 
